@@ -711,13 +711,17 @@ def _name_root(facts, fn, defs, o, cache, depth=0):
                     if src is not None and src[0] == 'stmt' and src[1]['k'] == 'use' and op_place(src[1]['a']) is not None and \
                             not op_place(src[1]['a'])['p']:
                         src = defs.get(op_place(src[1]['a'])['l'])
+                    elif src is not None and src[0] == 'stmt' and src[1]['k'] == 'ref' and not src[1]['p']['p']:
+                        src = defs.get(src[1]['p']['l'])  # the environment of an inlined closure: `&closure`
                     else:
                         break
-                names = [e.get('n') for e in proj if 'f' in e]
+                names = [e.get('n') if e.get('n') is not None else str(e.get('f')) for e in proj if 'f' in e]
                 # a field of a struct value built in this function (`g = Geometry { n: x, .. }; .. g.n`): what was put there
-                if src is not None and src[0] == 'stmt' and src[1]['k'] == 'agg' and src[1].get('ak') == 'adt' and \
-                        len(names) == 1 and len(proj) == 1 and names[0] in (src[1].get('fields') or []):
-                    o2 = src[1]['ops'][src[1]['fields'].index(names[0])]
+                is_clo = src is not None and src[0] == 'stmt' and src[1]['k'] == 'agg' and src[1].get('ak') == 'closure' and \
+                    len(names) == 1 and len(proj) == 1 and (names[0] or '').isdigit() and int(names[0]) < len(src[1].get('ops') or [])
+                if is_clo or (src is not None and src[0] == 'stmt' and src[1]['k'] == 'agg' and src[1].get('ak') == 'adt' and
+                              len(names) == 1 and len(proj) == 1 and names[0] in (src[1].get('fields') or [])):
+                    o2 = src[1]['ops'][int(names[0])] if is_clo else src[1]['ops'][src[1]['fields'].index(names[0])]
                     q2 = op_place(o2)
                     if q2 is None:
                         return ('const', l) if op_const(o2) is not None else ('local', l)
